@@ -30,7 +30,7 @@ def optOut (c : ConstFact) : Bool := containsSub c.comment "gomacro:no-enum"
 
 def toMember (c : ConstFact) : Member :=
   { name := c.name, val := c.val, valStr := c.valStr, comment := c.comment, exported := c.exported,
-    isInt := c.isInt, int := c.int }
+    isInt := c.isInt, int := c.int, str := c.str }
 
 /-- `fetchConstComment` at the pinned commit: the position lookup returns the `*ast.ValueSpec`
 only for the first name of a spec; for `A, B T = 1, 2` the lookup of `B` yields the identifier
